@@ -132,4 +132,22 @@ theorem C05_repeat_restores (cfg : ECfg) (al : List (Str × Val)) (f id : Nat) (
   rw [← hold]
   exact restore_gives_back nm.str s s1 s' hr hk
 
+/-- **C08 (nothing at all for an empty iterable or `None`)**: a `tal:repeat` whose expression evaluates to `None` or to
+an empty list renders nothing — the output stack is what it was after evaluating the expression, the body is not
+evaluated — and the loop variable is restored. -/
+theorem C08_empty_renders_nothing (cfg : ECfg) (al : List (Str × Val)) (f id : Nat) (nm : Tok) (e : EN) (ws : Str) (node : Node)
+    (s s1 : RState) (v : Val) (hv : enVal cfg al e s = .ok v s1) (hempty : v = .none ∨ v = .list [] ∨ v = .tuple [])
+    (hrep : s.env.get (lit "repeat") = some .repeatDict) :
+    ∃ s', eval cfg al (f + 2) (.repeat_ id [nm] e true ws node) s = .ok () s' ∧ s'.streams = s1.streams ∧
+      s'.env.get nm.str = s.env.get nm.str := by
+  have hstep : ∃ s', eval cfg al (f + 2) (.repeat_ id [nm] e true ws node) s = .ok () s' ∧ s'.streams = s1.streams := by
+    simp only [eval, if_true, List.map_cons, List.map_nil]
+    rw [mGet_bind]
+    simp only [bind, hv, hrep, pure]
+    rcases hempty with h | h | h <;> subst h <;>
+      simp only [evalRepeat, modEnv, mModify, forM_single, setVar, bind, pure, restore, List.length_nil] <;>
+      (cases hold : s.env.get nm.str <;> simp [setVar, delVar, modEnv, mModify, forM_single, bind, pure])
+  obtain ⟨s', hs', hstr⟩ := hstep
+  exact ⟨s', hs', hstr, C05_repeat_restores cfg al (f + 1) id nm e ws node s s' hs'⟩
+
 end ChamVerif
